@@ -237,6 +237,8 @@ func entryPointsFor(kind string) []string {
 		return []string{"Decode:ServerKeys", "CheckKeys", "KeyRing", "Canonicalise:CanonicalJSON", "VerifyJSON"}
 	case kind == "header":
 		return []string{"ParseAuthorization", "VerifyHTTPRequest"}
+	case kind == "headers":
+		return []string{"VerifyHTTPRequest"}
 	case kind == "httpreq":
 		return []string{"HTTPRequest"}
 	case kind == "json":
